@@ -361,6 +361,18 @@ func corruptOps(p *prng.R, m *dyn.Model, g *gen.G, db *ref.DB) ([]ovsdb.Operatio
 		`{"op":"insert","table":"` + t.Name + `","row":{"name":["map",[]]}}`,
 		`{"op":"commit","durable":true}`, `{"op":"comment","comment":"x"}`, `{"op":"assert","lock":"l"}`,
 	}
+	// every mutator and every condition function with every argument shape, on random columns
+	// (well-typed or not; "where": [] lets the mutation reach the rows that exist)
+	args := []string{`1`, `-1`, `0`, `1.5`, `"x"`, `true`, `["set",[]]`, `["set",[1]]`, `["set",[1,2]]`, `["set",["a","b"]]`, `["map",[]]`, `["map",[["a","b"]]]`, `["map",[[1,2]]]`,
+		`["uuid","` + p.UUID() + `"]`, `["named-uuid","nn"]`, `["set",[["uuid","` + p.UUID() + `"]]]`, `null`, `[]`, `{}`, `["set",[["set",[]]]]`}
+	muts := []string{"+=", "-=", "*=", "/=", "%=", "insert", "delete", "bogus"}
+	fns := []string{"==", "!=", "<", "<=", ">", ">=", "includes", "excludes", "bogus"}
+	var matrix []string
+	for k := 0; k < 2; k++ {
+		c := t.Cols[p.Intn(len(t.Cols))]
+		matrix = append(matrix, `{"op":"mutate","table":"`+t.Name+`","where":[],"mutations":[["`+c.Name+`","`+muts[p.Intn(len(muts))]+`",`+args[p.Intn(len(args))]+`]]}`)
+		matrix = append(matrix, `{"op":"select","table":"`+t.Name+`","where":[["`+c.Name+`","`+fns[p.Intn(len(fns))]+`",`+args[p.Intn(len(args))]+`]]}`)
+	}
 	b, _ := json.Marshal(wire)
 	var tree interface{}
 	_ = json.Unmarshal(b, &tree)
@@ -376,6 +388,13 @@ func corruptOps(p *prng.R, m *dyn.Model, g *gen.G, db *ref.DB) ([]ovsdb.Operatio
 		_ = json.Unmarshal([]byte(extra[p.Intn(len(extra))]), &e)
 		pos := p.Intn(len(arr) + 1)
 		arr = append(arr[:pos], append([]interface{}{e}, arr[pos:]...)...)
+	}
+	if p.Bool() {
+		// one operation of the mutator / condition matrix, at the end: the operations before
+		// it have filled the table
+		var e interface{}
+		_ = json.Unmarshal([]byte(matrix[p.Intn(len(matrix))]), &e)
+		arr = append(arr, e)
 	}
 	if p.Chance(1, 30) {
 		arr = []interface{}{}
